@@ -90,7 +90,8 @@ def documented : List Entry := [
     "last of an empty sequence"⟩,
   ⟨"filters", "do_random", 0, ["IndexError"], ["len", "getitem", "*"], false, .undefined, "random item of an empty sequence"⟩,
   -- filters "int", "float": "if the conversion doesn't work it will return 0 / 0.0; you can override this default"
-  ⟨"filters", "do_int", 0, ["TypeError", "ValueError"], ["int", "index", "trunc", "*"], false, .fallback, "int(value) failed: try int(float(value))"⟩,
+  ⟨"filters", "do_int", 0, ["TypeError", "ValueError", "OverflowError"], ["int", "index", "trunc", "*"], false, .fallback,
+    "int(value) failed (not a number, or an infinite float): try int(float(value))"⟩,
   ⟨"filters", "do_int", 1, ["TypeError", "ValueError", "OverflowError"], ["float", "int", "index", "*"], false, .default_,
     "int(float(value)) failed: the default"⟩,
   ⟨"filters", "do_float", 0, ["TypeError", "ValueError", "OverflowError"], ["float", "index", "*"], false, .default_,
